@@ -7,7 +7,22 @@ unset GOTOOLCHAIN GOSUMDB || true
 mkdir -p run evidence
 cp /repo/go.sum harness/go.sum
 (cd harness && go build -tags verif -o ../run/nghx .)
-if [ -x run/nghx ] && run/nghx gen-tables -out coq/gen >/dev/null 2>&1; then :; fi
+# regenerate the tables printed from the Go source (translator sub-commands listed under `gen` in lib/props/*.py)
+python3 - <<'PY'
+import sys, subprocess, os
+sys.path.insert(0, 'lib')
+from props import PROPS
+import vf
+done = set()
+for pid, cfg in sorted(PROPS.items()):
+    for g in cfg.get('gen', []):
+        key = tuple(g)
+        if key in done:
+            continue
+        done.add(key)
+        rc = subprocess.run([vf.NGHX] + list(g), cwd=vf.VERIF, env=vf.goenv()).returncode
+        print('gen', ' '.join(g), 'rc', rc)
+PY
 python3 lib/mkcoqproject.py
 (cd coq && coq_makefile -f _CoqProject -o Makefile >/dev/null && (timeout 3000 make -k -j16 || echo "setup: some Coq targets failed (each check rebuilds and reports its own)"))
 echo setup-ok
